@@ -26,6 +26,13 @@ def assert_sorted(indices):
 
 
 @tweezer
+def assert_in_range(indices, size):
+    for i in range(len(indices)):
+        assert indices[i] >= 0, "Indices must not be negative."
+        assert indices[i] < size, "Indices must be smaller than the number of traps."
+
+
+@tweezer
 def single_zone_move_cz(
     zone: grid.Grid[Any, Any],
     ctrl_x_ids: ilist.IList[int, NumX],
@@ -47,6 +54,13 @@ def single_zone_move_cz(
     assert_sorted(ctrl_y_ids)
     assert_sorted(qarg_x_ids)
     assert_sorted(qarg_y_ids)
+
+    num_x = len(grid.get_xpos(zone))
+    num_y = len(grid.get_ypos(zone))
+    assert_in_range(ctrl_x_ids, num_x)
+    assert_in_range(ctrl_y_ids, num_y)
+    assert_in_range(qarg_x_ids, num_x)
+    assert_in_range(qarg_y_ids, num_y)
 
     start = grid.sub_grid(zone, ctrl_x_ids, ctrl_y_ids)
     target_atoms = grid.sub_grid(zone, qarg_x_ids, qarg_y_ids)
